@@ -2649,3 +2649,25 @@ package goatlang
 //@   requires wfC(c) && tok != nil
 //@   modifies *
 //@   nopanic
+//@
+//@ -- the stage functions. tokenize sits on text/scanner (external): assumed not to panic and to
+//@ -- end every token list with the (eof) token it appends itself.
+//@ func tokenize
+//@   property C03
+//@   trusted
+//@   allocates token elems(*token)
+//@   nopanic
+//@   ensures len(result0) >= 1 && (forall j int :: 0 <= j && j < len(result0) ==> result0[j] != nil)
+//@ func (*parser).Statement
+//@   property C03
+//@   trusted
+//@   modifies *
+//@ func parse
+//@   property C03
+//@   requires len(tokens) >= 1 && (forall j int :: 0 <= j && j < len(tokens) ==> tokens[j] != nil)
+//@   modifies *
+//@   nopanic
+//@ func parse loop 0
+//@   invariant p != nil && res != nil
+//@ func parse handler
+//@   assume p.Token != nil
